@@ -71,6 +71,11 @@ def gen_address(r):
         a = "osmo1xyz"
     if r.random() < 0.35:
         a = mutate_addr(r, a)
+    if r.random() < 0.08:
+        # a multi-byte character straddling the byte offset where the prefix ends (byte-indexed slicing of the input)
+        k = len(pref.encode())
+        j = max(0, k - r.choice([1, 1, 2]))
+        a = a[:j] + r.choice(["€", "é", "𝔞"]) + a[j + 1:]
     return a, pref
 
 
